@@ -210,6 +210,13 @@ theorem nothing_after_end (p : Policy) (host0 : Option Nat) (ls : List Label) (p
           cases o <;> simp_all [ends, retryable]
     · simp at hin; subst hin; simp [ends] at he
 
+/-- never after a response has started: once the downstream response has started (and no attempt is outstanding), whatever
+arrives — a late reset of the answered upstream stream, a timer, a connection event — changes nothing: no retry decision is
+taken and no upstream event is produced (the regenerated guard of `onUpstreamReset` contains `!downstreamResponseStarted`) -/
+theorem started_is_final (p : Policy) (s : St) (l : Label) (h1 : s.live = false) (h2 : s.started = true) : step p s l = s := by
+  unfold step
+  simp [h1, h2, resetGuard_started]
+
 /-- **local_reply_no_upstream**: a route with a direct response answers with exactly the configured status and body, a route
 with a redirect (and no direct response) with the configured code and the assembled location — and in both cases the exchange
 contains that one reply and NO host selection and NO upstream attempt, for every policy, oracle and outcome sequence
